@@ -4,8 +4,8 @@ import json
 KEYS = ['a', 'b', 'k', 'user', '_f_', '_f_q', '_csrft_', 'é', 'x y', '']
 QUEUES = ['', '', 'q', 'err']
 STRS = ['', 'v', 'hello', 'a"b\\c', 'lüné', '€', '\U0001f600', 'tab\tnl\n', '\x00\x1f\x7f', '\ud800', 'x' * 40]
-SECRETS = ['seekrit', 's' * 64, 'päss', 'k1']
-SALTS = ['pyramid.session.', 'pyramid.session.', '', None, 'salt.']
+SECRETS = ['seekrit', 's' * 64, 'päss', 'k1', '€key']      # latin-1 / not latin-1: WebOb encodes the key differently
+SALTS = ['pyramid.session.', 'pyramid.session.', '', None, 'salt.', 'sält', 'sa€']
 ALGS = ['sha512', 'sha512', 'sha256', 'sha1', 'md5', 'sha384']
 B64 = 'ABCDEFGHIJKLMNOPQRSTUVWXYZabcdefghijklmnopqrstuvwxyz0123456789-_'
 ACC_OPS = ['get', 'getitem', 'items', 'values', 'keys', 'contains', 'len', 'iter', 'peek_flash', 'get_csrf_token']
@@ -47,6 +47,8 @@ def gen_op(rng, t, mostly_acc=False):
         o['k'] = rng.choice(KEYS)
     elif n in ('update', 'ior'):
         o['v'] = {rng.choice(KEYS): gen_value(rng, 1) for _ in range(rng.choice([0, 1, 2, 3]))}
+        if rng.random() < 0.4:
+            o['how'] = rng.choice(['pairs', 'iter', 'kwargs', 'both']) if n == 'update' else 'pairs'
     elif n == 'pop':
         o['k'] = rng.choice(KEYS)
         if rng.random() < 0.6:
@@ -71,6 +73,8 @@ def gen_op(rng, t, mostly_acc=False):
             o['kw'] = True
     elif n in ('new_csrf_token', 'get_csrf_token'):
         o['tok'] = gen_tok(rng)
+    if 'k' in o and rng.random() < 0.1:
+        o['ksub'] = True
     return o
 
 
@@ -81,15 +85,27 @@ def gen_opts(rng):
          'timeout': rng.choice([None, 1200, 1200, 60, 5, 1, 0, 30]),
          'reissue': rng.choice([None, 0, 0, 0, 3, 10, 120, 2000]),
          'soe': rng.random() < 0.65}
+    # option values of other types than the documented int / bool (the code converts with int() / tests truth once,
+    # at configuration time): bool-is-int, floats (truncated), digit strings, falsy-but-set values, refused strings
+    if rng.random() < 0.22:
+        o['timeout'] = rng.choice(ODD_TIMEOUTS)
+    if rng.random() < 0.22:
+        o['reissue'] = rng.choice(ODD_REISSUES)
+    if rng.random() < 0.15:
+        o['soe'] = rng.choice([0, 1, None, '', 'no', 0.0, 2.5, 7])
     if rng.random() < 0.3:
         o['cookie_name'] = rng.choice(['session', 'sid', 'my.session'])
-        o['max_age'] = rng.choice([None, 3600, 10])
+        o['max_age'] = rng.choice([None, None, 3600, 3600, 10, 10, 0, True, 10.75, '3600', '10', 'soon'])
         o['path'] = rng.choice(['/', '/app'])
         o['domain'] = rng.choice([None, 'example.com'])
         o['secure'] = rng.random() < 0.5
         o['httponly'] = rng.random() < 0.5
         o['samesite'] = rng.choice(['Lax', 'Strict', None])
     return o
+
+
+ODD_TIMEOUTS = [True, False, 0, 0.0, 5.75, 1.25, '5', '60', '0', -3, 0.5, 'never', '', ' 5', 60.5, '1200']
+ODD_REISSUES = [True, False, 0.0, 3.5, 0.75, '3', '0', -1, 'x', '10']
 
 
 def gen_src(rng, i, malformed):
@@ -160,12 +176,12 @@ FRACS = [0, 0, 0, 0.25, 0.5, 0.75]
 
 
 def advance(rng, opts):
-    to = 1200 if opts.get('defaults') else opts.get('timeout', 1200)
-    ri = 0 if opts.get('defaults') else opts.get('reissue', 0)
+    from harness.c10.prop import eff_int, opt
+    to, ri = eff_int(opt(opts, 'timeout')), eff_int(opt(opts, 'reissue'))
     c = [0, 0, 1, 1, 2, 7]
-    if ri is not None:
+    if ri is not None and ri != 'raises':
         c += [ri - 1, ri, ri + 1, ri + 1]
-    if to is not None:
+    if to is not None and to != 'raises':
         c += [to - 1, to, to, to + 1, to + 1, to + 500]
     d = max(0, rng.choice(c)) if rng.random() < 0.97 else -rng.choice([1, 5, 2000])
     if rng.random() < 0.45:
@@ -194,7 +210,9 @@ def gen_chain(rng):
         t = tt
     case = {'opts': opts, 'reqs': reqs}
     if rng.random() < 0.25:
-        case['router'] = True      # through a real Router (request.session, exception view, Set-Cookie header)
+        # through a real Router (request.session, exception view, Set-Cookie header); the factory configured through
+        # the Configurator constructor or through config.set_session_factory
+        case['router'] = True if rng.random() < 0.7 else 'setter'
     return case
 
 
@@ -239,6 +257,17 @@ def _okt(t):
     return isinstance(t, (int, float)) and not isinstance(t, bool) and 0 <= t <= 2 ** 40 and t * 4 == int(t * 4)
 
 
+def _okv(v):
+    """an option value the model knows: None, bool, int, float on the 1/4 grid, short str"""
+    if v is None or isinstance(v, bool):
+        return True
+    if isinstance(v, int):
+        return abs(v) < 2 ** 40
+    if isinstance(v, float):
+        return abs(v) < 2 ** 40 and v * 4 == int(v * 4)
+    return isinstance(v, str) and len(v) <= 20
+
+
 def valid(case):
     try:
         o = case['opts']
@@ -246,20 +275,20 @@ def valid(case):
             return False
         if o.get('hashalg', 'sha512') not in ALGS:
             return False
-        for k in ('timeout', 'reissue'):
-            if k in o and o[k] is not None and not (isinstance(o[k], int) and not isinstance(o[k], bool)):
+        for k in ('timeout', 'reissue', 'max_age', 'soe'):
+            if k in o and not _okv(o[k]):
                 return False
         if not case['reqs']:
             return False
-        if 'router' in case and case['router'] is not True:
+        if 'router' in case and case['router'] is not True and case['router'] != 'setter':
             return False
         if o.get('salt', '') not in SALTS or o.get('cookie_name', 'session') not in ('session', 'sid', 'my.session'):
             return False
         if o.get('path', '/') not in ('/', '/app') or o.get('domain') not in (None, 'example.com'):
             return False
-        if o.get('samesite', 'Lax') not in ('Lax', 'Strict', None) or o.get('max_age') not in (None, 3600, 10):
+        if o.get('samesite', 'Lax') not in ('Lax', 'Strict', None):
             return False
-        for k in ('soe', 'secure', 'httponly', 'defaults'):
+        for k in ('secure', 'httponly', 'defaults'):
             if k in o and not isinstance(o[k], bool):
                 return False
         from harness.c10.prop import OPCODE, op_wire
@@ -284,6 +313,10 @@ def valid(case):
                         or ('dup' in op and not isinstance(op['dup'], bool)):
                     return False
                 if 'k' in op and not isinstance(op['k'], str):
+                    return False
+                if ('ksub' in op and op['ksub'] is not True) or op.get('how') not in (None, 'pairs', 'iter', 'kwargs', 'both'):
+                    return False
+                if op.get('how') and (op['op'] not in ('update', 'ior') or (op['op'] == 'ior' and op['how'] != 'pairs')):
                     return False
                 if 'tok' in op and (len(op['tok']) != 40 or any(c not in '0123456789abcdef' for c in op['tok'])):
                     return False
